@@ -174,7 +174,7 @@ fn c11_cd_zero_column() {
 // the only rounded quantities are const_ = l1_reg/|x'r - l2_reg*w| and the products with it, hence the stated
 // slack of 8 ulp of the sum of the magnitudes of the terms.  In the branch const_ = 1 everything is exact
 // and the gap must be >= 0 exactly.
-// @unit class=bounded tier=thorough mem=heavy bound="n=2,p=1, x,y,w integer-valued in [-3,3], penalty even integer 0..8, l1_ratio in {1,1/2}" timeout=1200 fns=linfa_elasticnet::algorithm::duality_gap
+// @unit class=bounded tier=quick mem=heavy bound="n=2,p=1, x,y,w integer-valued in [-3,3], penalty even integer 0..8, l1_ratio in {1,1/2}" timeout=1200 fns=linfa_elasticnet::algorithm::duality_gap
 #[kani::proof]
 #[kani::unwind(5)]
 #[kani::stub(alloc::fmt::format, fmt_stub)]
@@ -217,11 +217,27 @@ fn c11_gap_nonneg_n2_p1() {
 // -------------------------------------------------------------------------------------------------
 // Multi-task variant: the whole coefficient ROW of a feature whose block x_j'Y lies in the closed ball of radius
 // n*l1_ratio*penalty is exactly zero (group sparsity of the l21 penalty); otherwise each entry keeps the sign of its x_j'y_k.
-// @unit class=bounded tier=thorough mem=heavy bound="n=2,p=1,tasks=2,max_steps=2, x,Y integer-valued in [-3,3], penalty integer 0..20, l1_ratio=1; sqrt uninterpreted" timeout=2400 fns=linfa_elasticnet::algorithm::block_coordinate_descent,linfa_elasticnet::algorithm::block_soft_thresholding,linfa_elasticnet::algorithm::duality_gap_mtl
+// block_coordinate_descent's rank-one residual updates call ndarray::linalg::general_mat_mul, which goes to the
+// `matrixmultiply` kernel (CPU-feature detection by inline asm: unsupported by Kani).  ndarray's private
+// `mat_mul_general` (documented "C <- alpha A B + beta C") is replaced by this textbook triple loop -- a TRUSTED MODEL of
+// the kernel, listed with the stubs in the evidence.
+fn c11_mat_mul<A: ndarray::LinalgScalar>(alpha: A, lhs: &ndarray::ArrayView2<'_, A>, rhs: &ndarray::ArrayView2<'_, A>, beta: A, c: &mut ndarray::ArrayViewMut2<'_, A>) {
+    let ((m, k), (_, n)) = (lhs.dim(), rhs.dim());
+    for i in 0..m {
+        for j in 0..n {
+            let mut acc = A::zero();
+            for l in 0..k { acc = acc + lhs[(i, l)] * rhs[(l, j)]; }
+            c[(i, j)] = if beta.is_zero() { alpha * acc } else { beta * c[(i, j)] + alpha * acc };
+        }
+    }
+}
+
+// @unit class=bounded tier=thorough mem=heavy bound="n=2,p=1,tasks=2,max_steps=2, x,Y integer-valued in [-3,3], penalty integer 0..20, l1_ratio=1; sqrt uninterpreted, mat-mul kernel modelled" timeout=2400 fns=linfa_elasticnet::algorithm::block_coordinate_descent,linfa_elasticnet::algorithm::block_soft_thresholding,linfa_elasticnet::algorithm::duality_gap_mtl
 #[kani::proof]
 #[kani::unwind(7)]
 #[kani::stub(alloc::fmt::format, fmt_stub)]
 #[kani::stub(f32::sqrt, ghost_sqrt32)]
+#[kani::stub(ndarray::linalg::impl_linalg::mat_mul_general, c11_mat_mul)]
 fn c11_bcd_n2_p1_t2() {
     let x = [c11_si(-3, 3), c11_si(-3, 3)];
     let y = [[c11_si(-3, 3), c11_si(-3, 3)], [c11_si(-3, 3), c11_si(-3, 3)]];
